@@ -3,8 +3,9 @@ from ..core import gz, glist
 
 ID = "C25"
 PROPS = ["theories/Props/C25.vo"]
-PINNED = ["C25_map_refinement", "C25_reads_latest", "C25_private", "C25_holds_outside",
-          "C25_refuted_values_leaked_on_drop", "C25_live_cells_exact", "C25_no_leak_outside"]
+PINNED = ["C25_map_refinement", "C25_reads_latest", "C25_private", "C25_holds",
+          "C25_refuted_before_repair", "C25_old_map_refinement", "C25_live_cells_exact",
+          "C25_old_live_cells_exact"]
 CASES_MODULE = "Cases.C25"
 HEADER = "From OCV Require Import Misc.Local Misc.LocalOracle."
 AREA = "local"
@@ -16,11 +17,13 @@ SHARD_SIZE = 40
 RULE = ("histories of put/get/get_mut/remove/drop over 1-3 real coroutines and 2-4 keys (the same keys used by "
         "several coroutines), values from the i64 extremes and random, each call made either through the handle "
         "or by the coroutine's own body through Coroutine::current(); half of the histories empty every "
-        "coroutine before dropping it, the other half drop coroutines that still store values (finding #27); "
+        "coroutine before dropping it, the other half drop coroutines that still store values (their destructors "
+        "must run at the drop, exactly once; finding #27, repaired); "
         "non-trivial = some call replaced/read/rewrote/removed an existing value, or a key was live in two "
         "coroutines at once, or a coroutine was dropped with values; distinct = distinct (coroutines, op list)")
 TRUSTED = ["values are a drop-logging struct (identity, i64 payload); a value handed back by put/remove is marked "
-           "before the harness drops it, so the `dropped` lists show only destructor runs made by the library",
+           "before the harness drops it, so the `dropped` lists show only destructor runs made by the library; "
+           "the destructor runs of one call are reported sorted by identity (DashMap's iteration order is unspecified)",
            "keys are freshly allocated strings with equal content per call (k0..k3)"]
 ASSUMPTIONS = ["one value type per history (put::<V>/get::<W> with V != W is undefined behaviour by construction "
                "of the API and outside the statement)",
@@ -33,7 +36,7 @@ def _val(rng):
     return rng.choice(I64) if rng.random() < 0.3 else rng.randint(-1000, 1000)
 
 
-def history(rng, n, nkeys, length, leaky):
+def history(rng, n, nkeys, length, full):
     ops = []
     nid = [0]
     alive = list(range(n))
@@ -52,7 +55,7 @@ def history(rng, n, nkeys, length, leaky):
         stored[c].discard(k)
 
     def drop(c):
-        if not leaky:
+        if not full:        # empty the coroutine first; otherwise its drop must release what it stores
             for k in sorted(stored[c]):
                 remove(c, k)
         ops.append({"op": "drop", "c": c})
@@ -77,7 +80,7 @@ def history(rng, n, nkeys, length, leaky):
     if rng.random() < 0.8:
         for c in list(alive):
             drop(c)
-    return {"cfg": {"cos": n}, "ops": ops, "kind": "leaky" if leaky else "clean"}
+    return {"cfg": {"cos": n}, "ops": ops, "kind": "dropped_full" if full else "emptied_first"}
 
 
 def gen(rng, tier):
@@ -85,7 +88,7 @@ def gen(rng, tier):
     cases = []
     for i in range(n):
         cos = rng.choice([1, 2, 2, 3])
-        cases.append(history(rng, cos, rng.choice([2, 3, 3, 4]), rng.randint(2, 40), leaky=(i % 2 == 1)))
+        cases.append(history(rng, cos, rng.choice([2, 3, 3, 4]), rng.randint(2, 40), full=(i % 2 == 1)))
     return cases
 
 
@@ -136,19 +139,21 @@ def nontrivial(case, obs, verdict):
             live.setdefault(o["k"], set()).add(o["c"])
             if len(live[o["k"]]) > 1:
                 return True
-    return "values_leaked_on_drop" in verdict["tags"]
+    return any(isinstance(v, dict) and v.get("drop") for v in obs)
 
 
 def distribution(results):
     d = {"put": 0, "get": 0, "get_mut": 0, "remove": 0, "drop": 0, "via_inside": 0, "hits": 0, "misses": 0,
-         "clean": 0, "leaky": 0, "coroutines": {}, "len_max": 0}
+         "emptied_first": 0, "dropped_full": 0, "drops_with_values": 0, "coroutines": {}, "len_max": 0}
     for c, o, v in results:
-        d[c.get("kind", "clean")] = d.get(c.get("kind", "clean"), 0) + 1
+        d[c.get("kind", "emptied_first")] = d.get(c.get("kind", "emptied_first"), 0) + 1
         n = str(c["cfg"]["cos"])
         d["coroutines"][n] = d["coroutines"].get(n, 0) + 1
         d["len_max"] = max(d["len_max"], len(c["ops"]))
         for op, ob in zip(c["ops"], o):
             d[op["op"]] += 1
+            if isinstance(ob, dict) and ob.get("drop"):
+                d["drops_with_values"] += 1
             if op.get("via") == "inside":
                 d["via_inside"] += 1
             if isinstance(ob, dict) and "res" in ob:
@@ -159,15 +164,18 @@ def distribution(results):
 LEVEL_TEXT = ("Unbounded theorems (all histories of put/get/get_mut/remove/drop over any number of coroutines and "
               "keys) about a Gallina model of CoroutineLocal as it is: every result agrees with a functional map per "
               "coroutine (store returns the previous value, read returns the latest, remove returns and deletes), a "
+              "dropped coroutine destroys exactly the values it still stored (C25_holds, no side condition), a "
               "read returns the latest write found by scanning the history backwards, the calls of other coroutines "
-              "never change what one coroutine observes (projection theorem). Release on drop is REFUTED for the "
-              "current code (witness theorem, finding #27: the map is freed, the boxed values are leaked), proved "
-              "under the side condition that every coroutine is emptied before it is dropped; at the ghost level the "
-              "boxes still allocated after any history are exactly those of the values still stored plus those stored "
-              "in a coroutine at its drop (store, overwrite and remove never leak). The model is tied to /repo by running the same "
+              "never change what one coroutine observes (projection theorem); at the ghost level the boxes still "
+              "allocated after any history are exactly those of the values still stored (store, overwrite, remove "
+              "and drop never leak). The code before the repair of finding #27 is kept as a model parameter: release "
+              "on drop is refuted for it (witness theorem), its map clauses hold, its leaked boxes are exactly those "
+              "stored at a drop. The model is tied to /repo by running the same "
               "histories on real coroutines with drop-logging values and comparing inside Coq.")
 LEVEL_NOTE = ("Trusted: Coq kernel + vm_compute; hand-written model validated on sampled histories only; DashMap "
-              "modelled as a map per operation; the drop-logging value type of the harness. Finding #27 "
-              "(values_leaked_on_drop) is kept as a known finding, not repaired: put<V> has no bound on V, so a "
-              "destructor run at coroutine drop could touch borrowed data that is already gone; a sound repair "
-              "needs a type-erased destructor plus an API bound, which is a design change. No axioms.")
+              "modelled as a map per operation, the order of the destructor runs of one drop is not observed (sorted "
+              "on both sides); the drop-logging value type of the harness. Finding #27 (values_leaked_on_drop) is "
+              "repaired: every entry keeps a release function monomorphised for its value's type, Drop for "
+              "CoroutineLocal calls them, and put requires V: 'c (the map is invariant in 'c and the drop checker "
+              "makes 'c outlive the coroutine strictly, so a destructor run at drop cannot see a dead borrow). "
+              "No axioms.")
